@@ -69,10 +69,19 @@ pub fn in_child(timeout_s: u32, f: impl FnOnce(&mut dyn Write)) -> ChildResult {
 
 /// Sets (or unsets) the overriding content of `<crate root>/<rel>` of the in-memory crate `name`.
 pub fn set_file(db: &mut RootDatabase, name: &str, rel: &str, content: Option<&str>) -> CrateInput {
+    set_file_settings(db, name, rel, content, None)
+}
+
+/// As `set_file`, with explicit crate settings (None: the defaults).
+pub fn set_file_settings(db: &mut RootDatabase, name: &str, rel: &str, content: Option<&str>, settings: Option<cairo_lang_filesystem::db::CrateSettings>) -> CrateInput {
     let root = std::path::PathBuf::from(format!("/verif_virtual/{name}"));
     let db_mut: &mut dyn Database = db;
     let crate_id = CrateId::plain(db_mut, SmolStrId::from(db_mut, name));
-    set_crate_config!(db_mut, crate_id, Some(CrateConfiguration::default_for_root(Directory::Real(root.clone()))));
+    let mut config = CrateConfiguration::default_for_root(Directory::Real(root.clone()));
+    if let Some(st) = settings {
+        config.settings = st;
+    }
+    set_crate_config!(db_mut, crate_id, Some(config));
     let file_id = FileLongId::OnDisk(root.join(rel)).intern(db_mut);
     override_file_content!(db_mut, file_id, content.map(|c| c.to_string().into()));
     let crate_id = CrateId::plain(db_mut, SmolStrId::from(db_mut, name));
